@@ -862,3 +862,15 @@ func classify(q *Q, nested bool, score string, extra bool, layout string) string
 	}
 	return fmt.Sprintf("%s:%s:%s@%s:%s", mappingName(nested), dir, q.Kind, pathRel(q), layout)
 }
+
+func isShapeClass(c string) bool { return c == classMustNot || c == classShouldMin || c == classDisjMin }
+
+// unexplainedClass: the query contains a known defect shape, but the observed answer is
+// neither the reference answer nor what raw-id combination yields.
+func unexplainedClass(q *Q, extra bool, layout string) string {
+	dir := "missing"
+	if extra {
+		dir = "extra"
+	}
+	return fmt.Sprintf("nested:%s(not-the-raw-id-answer):%s@%s:%s", dir, q.Kind, pathRel(q), layout)
+}
